@@ -73,6 +73,9 @@ model/Apply.vos model/Apply.vok model/Apply.required_vos: model/Apply.v base/Bit
 model/Board.vo model/Board.glob model/Board.v.beautified model/Board.required_vo: model/Board.v base/Bits.vo base/Types.vo base/BitBoard.vo geom/Geometry.vo gen/T_zobrist.vo spec/Rules.vo
 model/Board.vio: model/Board.v base/Bits.vio base/Types.vio base/BitBoard.vio geom/Geometry.vio gen/T_zobrist.vio spec/Rules.vio
 model/Board.vos model/Board.vok model/Board.required_vos: model/Board.v base/Bits.vos base/Types.vos base/BitBoard.vos geom/Geometry.vos gen/T_zobrist.vos spec/Rules.vos
+model/Book.vo model/Book.glob model/Book.v.beautified model/Book.required_vo: model/Book.v base/Bits.vo base/Types.vo base/Tree.vo gen/T_book.vo spec/Rules.vo
+model/Book.vio: model/Book.v base/Bits.vio base/Types.vio base/Tree.vio gen/T_book.vio spec/Rules.vio
+model/Book.vos model/Book.vok model/Book.required_vos: model/Book.v base/Bits.vos base/Types.vos base/Tree.vos gen/T_book.vos spec/Rules.vos
 model/Fen.vo model/Fen.glob model/Fen.v.beautified model/Fen.required_vo: model/Fen.v base/Bits.vo base/Types.vo base/BitBoard.vo geom/Geometry.vo model/Board.vo
 model/Fen.vio: model/Fen.v base/Bits.vio base/Types.vio base/BitBoard.vio geom/Geometry.vio model/Board.vio
 model/Fen.vos model/Fen.vok model/Fen.required_vos: model/Fen.v base/Bits.vos base/Types.vos base/BitBoard.vos geom/Geometry.vos model/Board.vos
@@ -97,12 +100,30 @@ proofs/BitBoardFacts.vos proofs/BitBoardFacts.vok proofs/BitBoardFacts.required_
 proofs/BitsFacts.vo proofs/BitsFacts.glob proofs/BitsFacts.v.beautified proofs/BitsFacts.required_vo: proofs/BitsFacts.v base/Bits.vo
 proofs/BitsFacts.vio: proofs/BitsFacts.v base/Bits.vio
 proofs/BitsFacts.vos proofs/BitsFacts.vok proofs/BitsFacts.required_vos: proofs/BitsFacts.v base/Bits.vos
+proofs/BookFacts.vo proofs/BookFacts.glob proofs/BookFacts.v.beautified proofs/BookFacts.required_vo: proofs/BookFacts.v base/Bits.vo base/Types.vo gen/T_book.vo spec/Rules.vo model/Book.vo proofs/BookSweep.vo
+proofs/BookFacts.vio: proofs/BookFacts.v base/Bits.vio base/Types.vio gen/T_book.vio spec/Rules.vio model/Book.vio proofs/BookSweep.vio
+proofs/BookFacts.vos proofs/BookFacts.vok proofs/BookFacts.required_vos: proofs/BookFacts.v base/Bits.vos base/Types.vos gen/T_book.vos spec/Rules.vos model/Book.vos proofs/BookSweep.vos
+proofs/BookSweep.vo proofs/BookSweep.glob proofs/BookSweep.v.beautified proofs/BookSweep.required_vo: proofs/BookSweep.v base/Bits.vo base/Types.vo spec/Rules.vo model/Book.vo
+proofs/BookSweep.vio: proofs/BookSweep.v base/Bits.vio base/Types.vio spec/Rules.vio model/Book.vio
+proofs/BookSweep.vos proofs/BookSweep.vok proofs/BookSweep.required_vos: proofs/BookSweep.v base/Bits.vos base/Types.vos spec/Rules.vos model/Book.vos
+proofs/CoreFacts.vo proofs/CoreFacts.glob proofs/CoreFacts.v.beautified proofs/CoreFacts.required_vo: proofs/CoreFacts.v base/Bits.vo base/Types.vo base/BitBoard.vo model/Board.vo model/MoveGen.vo model/Apply.vo model/Fen.vo spec/Rules.vo
+proofs/CoreFacts.vio: proofs/CoreFacts.v base/Bits.vio base/Types.vio base/BitBoard.vio model/Board.vio model/MoveGen.vio model/Apply.vio model/Fen.vio spec/Rules.vio
+proofs/CoreFacts.vos proofs/CoreFacts.vok proofs/CoreFacts.required_vos: proofs/CoreFacts.v base/Bits.vos base/Types.vos base/BitBoard.vos model/Board.vos model/MoveGen.vos model/Apply.vos model/Fen.vos spec/Rules.vos
+proofs/FenFacts.vo proofs/FenFacts.glob proofs/FenFacts.v.beautified proofs/FenFacts.required_vo: proofs/FenFacts.v base/Bits.vo base/Types.vo base/BitBoard.vo geom/Geometry.vo model/Board.vo model/Fen.vo proofs/BitsFacts.vo
+proofs/FenFacts.vio: proofs/FenFacts.v base/Bits.vio base/Types.vio base/BitBoard.vio geom/Geometry.vio model/Board.vio model/Fen.vio proofs/BitsFacts.vio
+proofs/FenFacts.vos proofs/FenFacts.vok proofs/FenFacts.required_vos: proofs/FenFacts.v base/Bits.vos base/Types.vos base/BitBoard.vos geom/Geometry.vos model/Board.vos model/Fen.vos proofs/BitsFacts.vos
+proofs/GameTreeFacts.vo proofs/GameTreeFacts.glob proofs/GameTreeFacts.v.beautified proofs/GameTreeFacts.required_vo: proofs/GameTreeFacts.v model/Score.vo proofs/ScoreOrder.vo spec/GameTree.vo
+proofs/GameTreeFacts.vio: proofs/GameTreeFacts.v model/Score.vio proofs/ScoreOrder.vio spec/GameTree.vio
+proofs/GameTreeFacts.vos proofs/GameTreeFacts.vok proofs/GameTreeFacts.required_vos: proofs/GameTreeFacts.v model/Score.vos proofs/ScoreOrder.vos spec/GameTree.vos
 proofs/GeomSweeps.vo proofs/GeomSweeps.glob proofs/GeomSweeps.v.beautified proofs/GeomSweeps.required_vo: proofs/GeomSweeps.v base/Bits.vo base/Types.vo base/BitBoard.vo base/Sweep.vo geom/Geometry.vo geom/Lookup.vo geom/GenFns.vo
 proofs/GeomSweeps.vio: proofs/GeomSweeps.v base/Bits.vio base/Types.vio base/BitBoard.vio base/Sweep.vio geom/Geometry.vio geom/Lookup.vio geom/GenFns.vio
 proofs/GeomSweeps.vos proofs/GeomSweeps.vok proofs/GeomSweeps.required_vos: proofs/GeomSweeps.v base/Bits.vos base/Types.vos base/BitBoard.vos base/Sweep.vos geom/Geometry.vos geom/Lookup.vos geom/GenFns.vos
 proofs/MagicSweep.vo proofs/MagicSweep.glob proofs/MagicSweep.v.beautified proofs/MagicSweep.required_vo: proofs/MagicSweep.v base/Bits.vo base/Types.vo base/Tree.vo base/Sweep.vo geom/Geometry.vo geom/Lookup.vo geom/Magic.vo gen/T_rook_moves.vo gen/T_bishop_moves.vo
 proofs/MagicSweep.vio: proofs/MagicSweep.v base/Bits.vio base/Types.vio base/Tree.vio base/Sweep.vio geom/Geometry.vio geom/Lookup.vio geom/Magic.vio gen/T_rook_moves.vio gen/T_bishop_moves.vio
 proofs/MagicSweep.vos proofs/MagicSweep.vok proofs/MagicSweep.required_vos: proofs/MagicSweep.v base/Bits.vos base/Types.vos base/Tree.vos base/Sweep.vos geom/Geometry.vos geom/Lookup.vos geom/Magic.vos gen/T_rook_moves.vos gen/T_bishop_moves.vos
+proofs/PawnFacts.vo proofs/PawnFacts.glob proofs/PawnFacts.v.beautified proofs/PawnFacts.required_vo: proofs/PawnFacts.v base/Bits.vo base/Types.vo base/BitBoard.vo base/Sweep.vo geom/Geometry.vo geom/Lookup.vo proofs/BitsFacts.vo proofs/BitBoardFacts.vo proofs/GeomSweeps.vo
+proofs/PawnFacts.vio: proofs/PawnFacts.v base/Bits.vio base/Types.vio base/BitBoard.vio base/Sweep.vio geom/Geometry.vio geom/Lookup.vio proofs/BitsFacts.vio proofs/BitBoardFacts.vio proofs/GeomSweeps.vio
+proofs/PawnFacts.vos proofs/PawnFacts.vok proofs/PawnFacts.required_vos: proofs/PawnFacts.v base/Bits.vos base/Types.vos base/BitBoard.vos base/Sweep.vos geom/Geometry.vos geom/Lookup.vos proofs/BitsFacts.vos proofs/BitBoardFacts.vos proofs/GeomSweeps.vos
 proofs/ScoreOrder.vo proofs/ScoreOrder.glob proofs/ScoreOrder.v.beautified proofs/ScoreOrder.required_vo: proofs/ScoreOrder.v model/Score.vo
 proofs/ScoreOrder.vio: proofs/ScoreOrder.v model/Score.vio
 proofs/ScoreOrder.vos proofs/ScoreOrder.vok proofs/ScoreOrder.required_vos: proofs/ScoreOrder.v model/Score.vos
@@ -112,18 +133,42 @@ proofs/TextFacts.vos proofs/TextFacts.vok proofs/TextFacts.required_vos: proofs/
 proofs/TracingFacts.vo proofs/TracingFacts.glob proofs/TracingFacts.v.beautified proofs/TracingFacts.required_vo: proofs/TracingFacts.v model/Tracing.vo
 proofs/TracingFacts.vio: proofs/TracingFacts.v model/Tracing.vio
 proofs/TracingFacts.vos proofs/TracingFacts.vok proofs/TracingFacts.required_vos: proofs/TracingFacts.v model/Tracing.vos
+proofs/ZobristFacts.vo proofs/ZobristFacts.glob proofs/ZobristFacts.v.beautified proofs/ZobristFacts.required_vo: proofs/ZobristFacts.v base/Bits.vo base/Types.vo gen/T_zobrist.vo model/Board.vo
+proofs/ZobristFacts.vio: proofs/ZobristFacts.v base/Bits.vio base/Types.vio gen/T_zobrist.vio model/Board.vio
+proofs/ZobristFacts.vos proofs/ZobristFacts.vok proofs/ZobristFacts.required_vos: proofs/ZobristFacts.v base/Bits.vos base/Types.vos gen/T_zobrist.vos model/Board.vos
+props/C01.vo props/C01.glob props/C01.v.beautified props/C01.required_vo: props/C01.v base/Bits.vo base/Types.vo model/Board.vo model/MoveGen.vo spec/Rules.vo proofs/CoreFacts.vo
+props/C01.vio: props/C01.v base/Bits.vio base/Types.vio model/Board.vio model/MoveGen.vio spec/Rules.vio proofs/CoreFacts.vio
+props/C01.vos props/C01.vok props/C01.required_vos: props/C01.v base/Bits.vos base/Types.vos model/Board.vos model/MoveGen.vos spec/Rules.vos proofs/CoreFacts.vos
+props/C02.vo props/C02.glob props/C02.v.beautified props/C02.required_vo: props/C02.v base/Bits.vo base/Types.vo model/Board.vo model/MoveGen.vo model/Apply.vo spec/Rules.vo proofs/CoreFacts.vo
+props/C02.vio: props/C02.v base/Bits.vio base/Types.vio model/Board.vio model/MoveGen.vio model/Apply.vio spec/Rules.vio proofs/CoreFacts.vio
+props/C02.vos props/C02.vok props/C02.required_vos: props/C02.v base/Bits.vos base/Types.vos model/Board.vos model/MoveGen.vos model/Apply.vos spec/Rules.vos proofs/CoreFacts.vos
+props/C03.vo props/C03.glob props/C03.v.beautified props/C03.required_vo: props/C03.v base/Bits.vo base/Types.vo model/Board.vo model/MoveGen.vo model/Apply.vo model/Fen.vo spec/Rules.vo proofs/CoreFacts.vo
+props/C03.vio: props/C03.v base/Bits.vio base/Types.vio model/Board.vio model/MoveGen.vio model/Apply.vio model/Fen.vio spec/Rules.vio proofs/CoreFacts.vio
+props/C03.vos props/C03.vok props/C03.required_vos: props/C03.v base/Bits.vos base/Types.vos model/Board.vos model/MoveGen.vos model/Apply.vos model/Fen.vos spec/Rules.vos proofs/CoreFacts.vos
+props/C04.vo props/C04.glob props/C04.v.beautified props/C04.required_vo: props/C04.v base/Bits.vo base/Types.vo gen/T_zobrist.vo model/Board.vo model/MoveGen.vo model/Apply.vo model/Fen.vo proofs/ZobristFacts.vo
+props/C04.vio: props/C04.v base/Bits.vio base/Types.vio gen/T_zobrist.vio model/Board.vio model/MoveGen.vio model/Apply.vio model/Fen.vio proofs/ZobristFacts.vio
+props/C04.vos props/C04.vok props/C04.required_vos: props/C04.v base/Bits.vos base/Types.vos gen/T_zobrist.vos model/Board.vos model/MoveGen.vos model/Apply.vos model/Fen.vos proofs/ZobristFacts.vos
+props/C05.vo props/C05.glob props/C05.v.beautified props/C05.required_vo: props/C05.v base/Bits.vo base/Types.vo base/BitBoard.vo model/Board.vo model/Fen.vo spec/Rules.vo proofs/FenFacts.vo proofs/CoreFacts.vo
+props/C05.vio: props/C05.v base/Bits.vio base/Types.vio base/BitBoard.vio model/Board.vio model/Fen.vio spec/Rules.vio proofs/FenFacts.vio proofs/CoreFacts.vio
+props/C05.vos props/C05.vok props/C05.required_vos: props/C05.v base/Bits.vos base/Types.vos base/BitBoard.vos model/Board.vos model/Fen.vos spec/Rules.vos proofs/FenFacts.vos proofs/CoreFacts.vos
+props/C06.vo props/C06.glob props/C06.v.beautified props/C06.required_vo: props/C06.v base/Bits.vo base/Types.vo base/BitBoard.vo model/Board.vo model/Fen.vo spec/Rules.vo proofs/FenFacts.vo
+props/C06.vio: props/C06.v base/Bits.vio base/Types.vio base/BitBoard.vio model/Board.vio model/Fen.vio spec/Rules.vio proofs/FenFacts.vio
+props/C06.vos props/C06.vok props/C06.required_vos: props/C06.v base/Bits.vos base/Types.vos base/BitBoard.vos model/Board.vos model/Fen.vos spec/Rules.vos proofs/FenFacts.vos
 props/C08.vo props/C08.glob props/C08.v.beautified props/C08.required_vo: props/C08.v base/Bits.vo base/Types.vo geom/Geometry.vo geom/Lookup.vo proofs/MagicSweep.vo gen/T_rook_moves.vo gen/T_bishop_moves.vo
 props/C08.vio: props/C08.v base/Bits.vio base/Types.vio geom/Geometry.vio geom/Lookup.vio proofs/MagicSweep.vio gen/T_rook_moves.vio gen/T_bishop_moves.vio
 props/C08.vos props/C08.vok props/C08.required_vos: props/C08.v base/Bits.vos base/Types.vos geom/Geometry.vos geom/Lookup.vos proofs/MagicSweep.vos gen/T_rook_moves.vos gen/T_bishop_moves.vos
-props/C09.vo props/C09.glob props/C09.v.beautified props/C09.required_vo: props/C09.v base/Bits.vo base/Types.vo base/BitBoard.vo geom/Geometry.vo geom/Lookup.vo geom/GenFns.vo proofs/GeomSweeps.vo
-props/C09.vio: props/C09.v base/Bits.vio base/Types.vio base/BitBoard.vio geom/Geometry.vio geom/Lookup.vio geom/GenFns.vio proofs/GeomSweeps.vio
-props/C09.vos props/C09.vok props/C09.required_vos: props/C09.v base/Bits.vos base/Types.vos base/BitBoard.vos geom/Geometry.vos geom/Lookup.vos geom/GenFns.vos proofs/GeomSweeps.vos
+props/C09.vo props/C09.glob props/C09.v.beautified props/C09.required_vo: props/C09.v base/Bits.vo base/Types.vo base/BitBoard.vo geom/Geometry.vo geom/Lookup.vo geom/GenFns.vo proofs/GeomSweeps.vo proofs/PawnFacts.vo
+props/C09.vio: props/C09.v base/Bits.vio base/Types.vio base/BitBoard.vio geom/Geometry.vio geom/Lookup.vio geom/GenFns.vio proofs/GeomSweeps.vio proofs/PawnFacts.vio
+props/C09.vos props/C09.vok props/C09.required_vos: props/C09.v base/Bits.vos base/Types.vos base/BitBoard.vos geom/Geometry.vos geom/Lookup.vos geom/GenFns.vos proofs/GeomSweeps.vos proofs/PawnFacts.vos
 props/C14.vo props/C14.glob props/C14.v.beautified props/C14.required_vo: props/C14.v model/Score.vo proofs/ScoreOrder.vo
 props/C14.vio: props/C14.v model/Score.vio proofs/ScoreOrder.vio
 props/C14.vos props/C14.vok props/C14.required_vos: props/C14.v model/Score.vos proofs/ScoreOrder.vos
 props/C16.vo props/C16.glob props/C16.v.beautified props/C16.required_vo: props/C16.v model/Score.vo model/Abi.vo proofs/AbiFacts.vo
 props/C16.vio: props/C16.v model/Score.vio model/Abi.vio proofs/AbiFacts.vio
 props/C16.vos props/C16.vok props/C16.required_vos: props/C16.v model/Score.vos model/Abi.vos proofs/AbiFacts.vos
+props/C17.vo props/C17.glob props/C17.v.beautified props/C17.required_vo: props/C17.v base/Bits.vo base/Types.vo gen/T_book.vo spec/Rules.vo model/Book.vo proofs/BookSweep.vo proofs/BookFacts.vo
+props/C17.vio: props/C17.v base/Bits.vio base/Types.vio gen/T_book.vio spec/Rules.vio model/Book.vio proofs/BookSweep.vio proofs/BookFacts.vio
+props/C17.vos props/C17.vok props/C17.required_vos: props/C17.v base/Bits.vos base/Types.vos gen/T_book.vos spec/Rules.vos model/Book.vos proofs/BookSweep.vos proofs/BookFacts.vos
 props/C18.vo props/C18.glob props/C18.v.beautified props/C18.required_vo: props/C18.v base/Bits.vo base/BitBoard.vo proofs/BitsFacts.vo proofs/BitBoardFacts.vo
 props/C18.vio: props/C18.v base/Bits.vio base/BitBoard.vio proofs/BitsFacts.vio proofs/BitBoardFacts.vio
 props/C18.vos props/C18.vok props/C18.required_vos: props/C18.v base/Bits.vos base/BitBoard.vos proofs/BitsFacts.vos proofs/BitBoardFacts.vos
@@ -133,6 +178,9 @@ props/C19.vos props/C19.vok props/C19.required_vos: props/C19.v model/Text.vos p
 props/C20.vo props/C20.glob props/C20.v.beautified props/C20.required_vo: props/C20.v model/Tracing.vo proofs/TracingFacts.vo
 props/C20.vio: props/C20.v model/Tracing.vio proofs/TracingFacts.vio
 props/C20.vos props/C20.vok props/C20.required_vos: props/C20.v model/Tracing.vos proofs/TracingFacts.vos
+spec/GameTree.vo spec/GameTree.glob spec/GameTree.v.beautified spec/GameTree.required_vo: spec/GameTree.v model/Score.vo
+spec/GameTree.vio: spec/GameTree.v model/Score.vio
+spec/GameTree.vos spec/GameTree.vok spec/GameTree.required_vos: spec/GameTree.v model/Score.vos
 spec/Rules.vo spec/Rules.glob spec/Rules.v.beautified spec/Rules.required_vo: spec/Rules.v base/Bits.vo base/Types.vo geom/Geometry.vo
 spec/Rules.vio: spec/Rules.v base/Bits.vio base/Types.vio geom/Geometry.vio
 spec/Rules.vos spec/Rules.vok spec/Rules.required_vos: spec/Rules.v base/Bits.vos base/Types.vos geom/Geometry.vos
